@@ -1,0 +1,59 @@
+//go:build verif
+
+package main
+
+// Verification hook (build tag verif only, add-only, no change of behaviour of a
+// normal build): when the environment variable SCION_TIME_VERIF_MP names a TOML
+// configuration file, the program loads it with the service's own loadConfig,
+// builds the clocks with the service's own localAddress and createClocks (which
+// starts the Pather against scion_daemon_address as usual) and registers the
+// system clock as runServer does. Then it runs one measurement round per line
+// read from standard input: "<i> <ms>" calls MeasureClockOffset of the i-th
+// clock (reference clocks first, then peers) with a context of <ms>
+// milliseconds and prints "verif-mp <i> <offset ns> <quoted error or ->".
+// At end of input it exits without starting anything else.
+
+import (
+	"bufio"
+	"context"
+	"fmt"
+	"log/slog"
+	"os"
+	"strconv"
+	"time"
+
+	"example.com/scion-time/core/timebase"
+	"example.com/scion-time/driver/clocks"
+)
+
+func init() {
+	file := os.Getenv("SCION_TIME_VERIF_MP")
+	if file == "" {
+		return
+	}
+	log := slog.Default()
+	cfg := loadConfig(file)
+	localAddr := localAddress(cfg)
+	localAddr.Host.Port = 0
+	refClocks, peerClocks := createClocks(cfg, localAddr, log)
+	timebase.RegisterClock(clocks.NewSystemClock(log, clockDrift(cfg)))
+	clks := append(refClocks, peerClocks...)
+	fmt.Printf("verif-mp ready %d\n", len(clks))
+	in := bufio.NewScanner(os.Stdin)
+	for in.Scan() {
+		var i, ms int
+		if n, _ := fmt.Sscan(in.Text(), &i, &ms); n != 2 || i < 0 || i >= len(clks) {
+			fmt.Println("verif-mp bad request")
+			continue
+		}
+		ctx, cancel := context.WithTimeout(context.Background(), time.Duration(ms)*time.Millisecond)
+		_, off, err := clks[i].MeasureClockOffset(ctx)
+		cancel()
+		e := "-"
+		if err != nil {
+			e = strconv.Quote(err.Error())
+		}
+		fmt.Printf("verif-mp %d %d %s\n", i, int64(off), e)
+	}
+	os.Exit(0)
+}
